@@ -121,6 +121,10 @@ class Gen:
         mut("body-append", lambda r: r.update(body=r["body"] + b"x"))
         mut("body-truncate", lambda r: r.update(body=r["body"][:-1]))
         mut("body-empty", lambda r: r.update(body=b""))
+        for blen in (49, 200):   # long body, last byte altered after signing
+            r = self.signed(route, body=b"L" * blen)
+            r["body"] = r["body"][:-1] + b"M"
+            self.put(route, "body-tail-flip", r)
         mut("method-put", lambda r: r.update(method="PUT"))
         mut("method-lower", lambda r: r.update(method="post"))
         mut("path-child", lambda r: r.update(target=route + "/x"))
